@@ -105,7 +105,7 @@ function main() {
       }
     } else if (j.k === 'translate') {
       r.trans = (j.codes || []).map(c => mod.translate(c));
-      if (mod.VConsts) r.consts = mod.VConsts();
+      if (mod.VConsts) { try { r.consts = mod.VConsts(); } catch (e) { r.consts_err = String(e && e.message || e); r.consts = {}; } }
     } else {
       r.err = 'job kind not supported for typescript: ' + j.k;
     }
